@@ -473,4 +473,16 @@ def edge_schema():
     g = Group("quotes", 10, "dimNarrow"); g.fields.append(Field("px", 1, "uint32")); g.fields.append(Field("qty", 2, "uint16")); m.groups.append(g)
     g = Group("fills", 11, "dimNarrow"); g.fields.append(Field("id", 1, "uint16")); g.data.append(Data("txt", 12, "vd")); m.groups.append(g)
     s.messages.append(m)
+    # an inline nested composite that carries its own offset: the offset places the nested composite inside its
+    # parent once; its members start at 0 inside it; the following sibling follows its (unshifted) end
+    s.add(TypeDef("quote", "composite", members=[
+        TypeDef("flags", "type", prim="uint8"),
+        TypeDef("px", "composite", offset=4, members=[TypeDef("mantissa", "type", prim="int32"), TypeDef("exponent", "type", prim="int8")]),
+        TypeDef("qty", "type", prim="uint16")]))
+    m = Message("E9", 9)
+    m.fields.append(Field("q", 1, "quote"))
+    m.fields.append(Field("after", 2, "uint16"))
+    g = Group("book", 10, "dim"); g.fields.append(Field("lvl", 1, "quote")); g.fields.append(Field("n", 2, "uint8")); m.groups.append(g)
+    m.data.append(Data("memo", 20, "vd"))
+    s.messages.append(m)
     return s
